@@ -7,7 +7,7 @@
 (*  {"a":"Mark", p, newer}              a market event after which an open   *)
 (*                                      position exists and the data state   *)
 (*                                      yields price p (read from the state) *)
-(*  {"a":"Quiet"}                       a market event without price or      *)
+(*  {"a":"Quiet"}  (-> MarkNoPrice)     a market event without price or      *)
 (*                                      without open position                *)
 (*  every line: "post" = the projected position after the call, "exit" =    *)
 (*  the PositionExited the call returned, all amounts in integer milli-units *)
@@ -112,9 +112,15 @@ TMark == /\ ~skip /\ Rec[l].a = "Mark"
             /\ lu' = r.post.unreal
          /\ UNCHANGED xreal
 
+\* a market event after which the implementation holds no price for the instrument, or no open
+\* position: accepted only as the stutter MarkNoPrice - the logged position must be the spec's
+\* (still open if it was open: side, size, realised PnL, fees, ids), no closed record, and the
+\* logged estimate must be the previous line's
 TQuiet == /\ ~skip /\ Rec[l].a = "Quiet"
-          /\ UNCHANGED <<pos, exited, net, cash, fees, nfill, fresh, last, xreal>>
-          /\ Verdict(BookNear(pos, Rec[l].post) /\ Rec[l].exit.side = "none", TRUE)
+          /\ MarkNoPrice                                                   \* the spec's own action
+          /\ UNCHANGED xreal
+          /\ Verdict(BookNear(pos', Rec[l].post) /\ Rec[l].exit.side = "none",
+                     IsOpen(pos) => Rec[l].post.unreal = lu)
           /\ lu' = Rec[l].post.unreal
 
 TNext == /\ l <= Len(Rec)
